@@ -85,7 +85,7 @@ func runC19(c *mon.Ctx) {
 			continue
 		}
 		r := c.Rng("streams", i)
-		m := gen.RandomModel(r, gen.ModelOpts{MaxPES: 3, MaxPMT: 2, MaxSI: 2, MaxUnits: 3})
+		m := gen.RandomModel(r, gen.ModelOpts{MaxPES: 3, MaxPMT: 2, MaxSI: 2, MaxUnits: 3, RichAF: true})
 		s := m.Build(r)
 		clean := true
 		if i%3 == 2 {
